@@ -331,7 +331,7 @@ class Session:
 
     def __init__(self, variant, proto, pki_files, client_files=None, mutual=False, hook=None, frag=None, quiet_ms=None,
                  seed=1, client_cafile="default", server_cafile=None, depth=None, server_files=None,
-                 client_script=b"", server_script=b"", fail=None, client_doctor=None, server_doctor=None):
+                 client_script=b"", server_script=b"", fail=None, client_doctor=None, server_doctor=None, client_offers=False):
         self.proto = proto
         c_outer, c_inner = socket.socketpair()
         s_inner, s_outer = socket.socketpair()
@@ -342,7 +342,9 @@ class Session:
         sseed = int.from_bytes(hashlib.sha256(b"s%d" % seed).digest()[:8], "big")
         self.client = Endpoint(variant, proto, True, c_outer,
                                cafile=pki_files["root"] if client_cafile == "default" else client_cafile,
-                               chainfile=cf["chain"] if (mutual and cf) else None, keyfile=cf["leafkey"] if (mutual and cf) else None,
+                               # client_offers: the client is configured with its certificate although the server will not ask for one
+                               chainfile=cf["chain"] if ((mutual or client_offers) and cf) else None,
+                               keyfile=cf["leafkey"] if ((mutual or client_offers) and cf) else None,
                                depth=depth, entropy_seed=cseed, entropy_script=client_script,
                                fail_at=fail[1] if fail and fail[0] == "client" else None, doctor=client_doctor)
         self.server = Endpoint(variant, proto, False, s_outer,
